@@ -15,7 +15,7 @@ RULE = ('stimulus = (construction script over <= 8 blocks mixing object / name /
         'by name or a shortcut')
 INVALID = ['unknown_name', 'foreign_block', 'event_to_cblock', 'filter_wrong_kind', 'not_unconnected',
            'not_two_inputs', 'override_group', 'override_empty_group', 'func_mismatch', 'duplicate_name', 'bad_shortcut',
-           'connect_twice', 'unknown_event_dest', 'reserved_name']
+           'connect_twice', 'unknown_event_dest', 'reserved_name', 'unknown_event_dest_ignored']
 
 
 def models(tier, seed):
@@ -78,6 +78,7 @@ def stimuli(tier, seed, ctx):
         s = _rand_script(rnd)
         s['mode'] = rnd.choice(['finalize', 'start', 'finalize_then_start'])
         s['invalid'] = 'none'
+        s['retry'] = rnd.random() < 0.15
         out.append(s)
     for inv in INVALID:
         for _ in range(3 if tier == 'quick' else 30):
@@ -167,8 +168,12 @@ def execute(stim):
             edzed.Or('cdest').connect(name(1))
             blks[1]._output_events += (edzed.Event('cdest', 'put'),) if False else ()
             events.append(edzed.Event('cdest', 'put'))
-        elif inv == 'unknown_event_dest':
+        elif inv in ('unknown_event_dest', 'unknown_event_dest_ignored'):
             events.append(edzed.Event('nosuchdest', 'put'))
+        if stim.get('retry'):
+            # a destination that does not exist yet: the first finalize() must fail, after the
+            # block was added a second finalize() must succeed and resolve everything
+            state['late_event'] = edzed.Event('late_dest', 'put')
         elif inv == 'filter_wrong_kind':
             edzed.Or('cdest').connect(name(1))
             cls = getattr(edzed, 'IfNotIitialized', None) or getattr(edzed, 'NotIfInitialized')
@@ -198,7 +203,7 @@ def execute(stim):
     def observe(circuit):
         ids = {name(i): i for i in range(1, n + 1)}
         ids.update({'_not_' + name(i): n + i for i in range(1, n + 1)})
-        helper = {'spare', 'evsrc'}
+        helper = {'spare', 'evsrc', 'late_dest'}
         exist, recs = [], []
 
         def enc(obj):
@@ -306,6 +311,24 @@ def execute(stim):
                 state['failed'] = True
                 return
             mode = stim['mode']
+            if stim.get('retry'):
+                try:
+                    circuit.finalize()
+                    first_failed = False
+                except Exception:
+                    first_failed = True
+                try:
+                    edzed.Input('late_dest', initdef=0)
+                    circuit.finalize()
+                    resolved = state['late_event'].dest.name == 'late_dest'
+                except Exception:
+                    resolved = False
+                lines.append({'ev': 'retry', 'first_failed': first_failed, 'resolved': bool(resolved)})
+            if inv == 'unknown_event_dest_ignored':
+                try:
+                    circuit.finalize()      # fails; the caller ignores it and starts anyway
+                except Exception:
+                    pass
             if mode in ('finalize', 'finalize_then_start'):
                 try:
                     circuit.finalize()
